@@ -172,12 +172,135 @@ fn cmd_decode(args: &[String]) {
     out.flush().unwrap();
 }
 
+// ---------------------------------------------------------------------------------------------
+// CPR pairing (C05)
+
+fn report(odd: i64, lat: i64, lon: i64) -> adsb_deku::Altitude {
+    adsb_deku::Altitude {
+        odd_flag: if odd == 1 { adsb_deku::CPRFormat::Odd } else { adsb_deku::CPRFormat::Even },
+        lat_cpr: lat as u32,
+        lon_cpr: lon as u32,
+        ..adsb_deku::Altitude::default()
+    }
+}
+
+fn pair_out(first: &adsb_deku::Altitude, second: &adsb_deku::Altitude) -> (Value, Option<(f64, f64)>) {
+    match catch_unwind(AssertUnwindSafe(|| adsb_deku::cpr::get_position((first, second)))) {
+        Err(_) => (json!({"outcome": "panic", "some": 0, "lat": 0, "lon": 0}), None),
+        Ok(None) => (json!({"outcome": "ok", "some": 0, "lat": 0, "lon": 0}), None),
+        Ok(Some(p)) => {
+            let finite = p.latitude.is_finite() && p.longitude.is_finite();
+            (
+                json!({"outcome": if finite { "ok" } else { "nonfinite" }, "some": 1,
+                       "lat": project::scaled(p.latitude, 1e6), "lon": project::scaled(p.longitude, 1e6)}),
+                Some((p.latitude, p.longitude)),
+            )
+        }
+    }
+}
+
+fn rep_json(odd: i64, lat: i64, lon: i64) -> Value {
+    json!({"odd": odd, "lat": lat, "lon": lon})
+}
+
+fn cmd_pair() {
+    let stdin = std::io::stdin();
+    let stdout = std::io::stdout();
+    let mut out = BufWriter::new(stdout.lock());
+    for line in stdin.lock().lines() {
+        let line = line.unwrap();
+        if line.trim().is_empty() {
+            continue;
+        }
+        let v: Value = serde_json::from_str(&line).expect("input json");
+        let f: Vec<i64> = v["first"].as_array().unwrap().iter().map(|x| x.as_i64().unwrap()).collect();
+        let s: Vec<i64> = v["second"].as_array().unwrap().iter().map(|x| x.as_i64().unwrap()).collect();
+        let (o, _) = pair_out(&report(f[0], f[1], f[2]), &report(s[0], s[1], s[2]));
+        let ev = json!({"ev": "pair", "tag": v["tag"].as_str().unwrap_or(""), "first": rep_json(f[0], f[1], f[2]),
+                        "second": rep_json(s[0], s[1], s[2]), "out": o});
+        serde_json::to_writer(&mut out, &ev).unwrap();
+        out.write_all(b"\n").unwrap();
+    }
+    out.flush().unwrap();
+}
+
+/// Walk every reachable latitude of one grid (even: index a = latitude 59a units, odd: 60a units,
+/// unit = 360/(60*59*2^17) degrees) between -90 and 90 degrees in ascending order, observe the
+/// longitude-zone count through the public pairing function (equal longitude CPR values 2^16 in both
+/// reports give longitude 180/ni), and log only the change points.  The run-length compression is
+/// harness code; every logged pair and the complete list of change points are judged by TLC.
+fn cmd_nlsweep() {
+    const P17: i64 = 131072;
+    const DL0: i64 = 7733248; // C/60
+    const DL1: i64 = 7864320; // C/59
+    let stdout = std::io::stdout();
+    let mut out = BufWriter::new(stdout.lock());
+    for grid in 0..2i64 {
+        let (lo, hi) = if grid == 0 { (-15 * P17, 15 * P17) } else { (-(59 * P17) / 4, (59 * P17) / 4) };
+        let mut prev: Option<i64> = None;
+        let mut changes: Vec<i64> = vec![];
+        let mut failures = 0u64;
+        let mut visited = 0u64;
+        for a in lo..=hi {
+            visited += 1;
+            let u = if grid == 0 { 59 * a } else { 60 * a };
+            // this grid's own report
+            let full = if grid == 0 { 60 * P17 } else { 59 * P17 };
+            let own = a.rem_euclid(full) % P17;
+            // the other parity's encoding of the same latitude; neighbours are tried when the pair is
+            // refused (the two reconstructed latitudes may straddle a zone transition)
+            let (dl, q) = if grid == 0 { (DL1, 60) } else { (DL0, 59) };
+            let base = ((2 * u.rem_euclid(dl) + q) / (2 * q)) % P17;
+            let mut seen: Option<(i64, Value, Value, Value)> = None;
+            for d in [0i64, 1, -1, 2, -2, 3, -3] {
+                let other = (base + d).rem_euclid(P17);
+                let (first, second) = if grid == 0 { (report(1, other, 65536), report(0, own, 65536)) }
+                                       else { (report(0, other, 65536), report(1, own, 65536)) };
+                let (o, pos) = pair_out(&first, &second);
+                if let Some((lat, lon)) = pos {
+                    let want = (u as f64) * 360.0 / 463_994_880.0;
+                    if (lat - want).abs() > 1e-6 || lon == 0.0 {
+                        continue;
+                    }
+                    let ni = (180.0 / lon.abs()).round() as i64;
+                    let (fj, sj) = if grid == 0 { (rep_json(1, other, 65536), rep_json(0, own, 65536)) }
+                                   else { (rep_json(0, other, 65536), rep_json(1, own, 65536)) };
+                    seen = Some((ni, fj, sj, o));
+                    break;
+                }
+            }
+            match seen {
+                None => failures += 1,
+                Some((ni, fj, sj, o)) => {
+                    if let Some(p) = prev {
+                        if p != ni {
+                            changes.push(a);
+                            let ev = json!({"ev": "nlchg", "grid": grid, "a": a, "before": p, "after": ni,
+                                            "first": fj, "second": sj, "out": o});
+                            serde_json::to_writer(&mut out, &ev).unwrap();
+                            out.write_all(b"\n").unwrap();
+                        }
+                    }
+                    prev = Some(ni);
+                }
+            }
+        }
+        let ev = json!({"ev": "nlsum", "grid": grid, "changes": changes, "failures": failures.min(1_000_000_000),
+                        "visited": visited.min(2_000_000_000)});
+        serde_json::to_writer(&mut out, &ev).unwrap();
+        out.write_all(b"\n").unwrap();
+    }
+    out.flush().unwrap();
+}
+
 fn main() {
     // panics of the code under test are data, not noise
     std::panic::set_hook(Box::new(|_| {}));
     let args: Vec<String> = std::env::args().collect();
     match args.get(1).map(String::as_str) {
         Some("decode") => cmd_decode(&args[2..]),
+        Some("pair") => cmd_pair(),
+        Some("nlsweep") => cmd_nlsweep(),
         Some("config") => {
             println!("{}", if cfg!(feature = "std") { "std" } else { "alloc" });
         }
